@@ -84,6 +84,7 @@ def channel_files(kind, triple, sub_times=None):
     out.append("notes.txt")
     out.append("%s" % data_name(mine, pfx, T0 + 1))  # stray data-named file directly in the channel dir
     out.append("2014-03-09_bad/%s" % data_name(mine, pfx, T0 + 2))  # malformed subdirectory name
+    out.append("%s.bak/%s" % (subdir_name(T0), data_name(mine, pfx, T0 + 3)))  # name merely starts like a subdirectory
     return out, dirs
 
 
